@@ -727,3 +727,119 @@ def r_noop_exact(cx):
                   "adapt decides `noop` through %s: a descriptor pair that only flips signs (multipliers -1) is taken for a "
                   "no-op and the tuple passes unchanged" % ", ".join(sorted(set(lossy + cmp_ops))), cx.where(sp))
     cx.count("R-NOOP-EXACT", "noop_values", n)
+
+
+@rule("R-COMBINE-ROLES", ["C11"])
+def r_combine_roles(cx):
+    """combine_descriptors(from, to) builds the one gather table adapt applies: output slot i takes the input slot in
+    which `from` keeps the internal axis that `to` wants in slot i - give = from^-1 o to, not its inverse (which a swap
+    of the two roles in the search gives; the two agree only for self-inverse permutations). The `position` search runs
+    over `from.post` and looks for `to.post[i]`; the multiplier is `from.mult[give.post[i]] / to.mult[i]`."""
+    import elems as E
+    fn = "inner_op::adapt::combine_descriptors"
+    f = cx.f.fn(fn)
+    adt = cx.f.lib["adts"].get("inner_op::adapt::CoordinateOrderDescriptor")
+    fields = [x["name"] for x in adt["variants"][0]["fields"]] if adt else []
+
+    def role(t):
+        """('from'|'to', field) for a term that reads a field of argument 1 / 2"""
+        out = []
+
+        def vis(y):
+            if y[0] == "proj" and isinstance(y[2], tuple) and y[2][0] == "f" and y[2][1] < len(fields):
+                b = mir.strip_refs(y[1])
+                if b in (("arg", 1), ("proj", ("arg", 1), "deref")):
+                    out.append(("from", fields[y[2][1]]))
+                if b in (("arg", 2), ("proj", ("arg", 2), "deref")):
+                    out.append(("to", fields[y[2][1]]))
+            return True
+        mir.walk(t, vis)
+        return out
+    n = 0
+    for bb, t in f.calls():
+        c = f.callee(t) or ""
+        if c.rsplit("::", 1)[-1] not in ("position", "find", "rposition"):
+            continue
+        a = f.arg_terms(bb)
+        recv = a[0]
+        if recv[0] == "refplace" and not recv[3]:
+            recv = f.local_value(recv[2], f.end_point(bb))
+        hay = role(recv)
+        needle = []
+        for x in a[1:]:
+            if x[0] == "agg" and isinstance(x[1], tuple) and x[1][0] == "closure":
+                for cap in x[2]:
+                    cap2 = cap
+                    if cap2[0] == "refplace" and not cap2[3]:
+                        cap2 = f.local_value(cap2[2], f.end_point(bb))
+                    needle += role(cap2)
+                    if mir.strip_refs(cap2) in (("arg", 1),):
+                        needle.append(("from", "?"))
+                    if mir.strip_refs(cap2) in (("arg", 2),):
+                        needle.append(("to", "?"))
+                # the closure may read the field of the captured descriptor itself
+                if cx.f.has_fn(x[1][1]):
+                    g = cx.f.fn(x[1][1])
+                    rt = E.return_term(g)
+        n += 1
+        ok = ("from", "post") in hay and not any(r == "to" for r, _ in hay) and any(r == "to" for r, _ in needle) and \
+            not any(r == "from" for r, _ in needle)
+        cx.ob("R-COMBINE-ROLES", "search%d" % (n - 1), ok,
+              "the slot search runs over from.post and looks for an element of `to`" if ok else
+              "combine_descriptors searches %s for an element of %s: that is the inverse of the permutation adapt needs "
+              "(from and to exchanged) - wrong for every pair whose combined permutation is not its own inverse" % (
+                  sorted(set(hay)) or "?", sorted(set(needle)) or "?"), cx.where(t["span"]))
+    cx.count("R-COMBINE-ROLES", "searches", n)
+
+
+@rule("R-EXACTLY-ONE", ["C12"])
+def r_exactly_one(cx):
+    """stack::new accepts a definition with exactly one sub-command by counting the sub-commands it recognises and
+    comparing the count with 1. The count is a running sum: every value it can have at the comparison is built from the
+    initial 0 by `+ 1` steps only - no branch *sets* it (`= 1` forgets what was counted before, and `push=1,2 roll=2,1`
+    is then accepted and silently acts as a roll)."""
+    f = cx.f.fn("inner_op::stack::new")
+    n = 0
+    for b in sorted(f.reachable()):
+        t = f.term(b)
+        if t["k"] != "switch":
+            continue
+        c = f.operand(t["discr"], f.end_point(b))
+        if not (c[0] == "bin" and c[1] in ("Ne", "Eq") and c[3][0] == "const" and c[3][2] == 1):
+            continue
+        x = mir.strip_refs(c[2])
+        if x[0] not in ("phi", "bin"):
+            continue
+        n += 1
+        bad = []
+        seen = set()
+
+        def walk(y, depth=0):
+            y = mir.strip_refs(y)
+            if depth > 400:
+                return
+            try:
+                if y in seen:
+                    return
+                seen.add(y)
+            except TypeError:
+                return
+            if y[0] == "phi":
+                for o in y[2]:
+                    walk(o, depth + 1)
+            elif y[0] == "bin" and y[1] in ("Add", "AddWithOverflow") and mir.strip_refs(y[3]) == ("const", mir.strip_refs(y[3])[1], 1):
+                walk(y[2], depth + 1)
+            elif y[0] == "proj" and mir.strip_refs(y[1])[0] == "bin":
+                walk(y[1], depth + 1)       # the value half of a checked addition
+            elif y[0] == "const" and y[2] == 0:
+                return
+            else:
+                bad.append(y)
+        walk(x)
+        ok = not bad
+        cx.ob("R-EXACTLY-ONE", "stack/new/count%d" % (n - 1), ok,
+              "the sub-command count is a sum of +1 steps from 0" if ok else
+              "stack::new: the count of sub-commands compared with 1 can have the value %s, which is not the initial 0 plus "
+              "+1 steps: a branch sets the count instead of incrementing it, and a definition with several sub-commands "
+              "passes the exactly-one test" % mir.show(bad[0], maxd=2)[:40], cx.where(t["span"]))
+    cx.count("R-EXACTLY-ONE", "count_tests", n)
